@@ -7,6 +7,7 @@ import (
 	"fmt"
 	"strings"
 	"testing"
+	"time"
 
 	"github.com/ClickHouse/ch-go/proto"
 	"pgregory.net/rapid"
@@ -245,5 +246,43 @@ func TestC19Conflicts(t *testing.T) {
 			rt.Fatalf("types of different base reported compatible: Conflicts(%q, %q) = %v (%v)", a, b, c, err)
 		}
 		st.Case(stats.Hash("diffbase", a, b), true, func() any { return map[string]any{"kind": "different-base", "a": a, "b": b} })
+	})
+}
+
+
+// Typed inferable columns receive the server's type string too (Results.DecodeResult
+// calls Infer before anything else): Infer must be total for them as well.
+func TestC19TypedInferTotal(t *testing.T) {
+	st := stats.G()
+	mk := []func() (string, proto.Inferable){
+		func() (string, proto.Inferable) { return "ColEnum", new(proto.ColEnum) },
+		func() (string, proto.Inferable) { return "ColDateTime", new(proto.ColDateTime) },
+		func() (string, proto.Inferable) { return "ColDateTime64", new(proto.ColDateTime64) },
+		func() (string, proto.Inferable) { return "ColInterval", new(proto.ColInterval) },
+		func() (string, proto.Inferable) { return "ColArr[ColEnum]", proto.NewArray[string](new(proto.ColEnum)) },
+		func() (string, proto.Inferable) {
+			return "ColArr[ColArr[ColDateTime64]]", proto.NewArray[[]time.Time](proto.NewArray[time.Time](new(proto.ColDateTime64)))
+		},
+		func() (string, proto.Inferable) {
+			return "ColMap[string,ColEnum]", proto.NewMap[string, string](new(proto.ColStr), new(proto.ColEnum))
+		},
+		func() (string, proto.Inferable) {
+			return "ColMap[ColDateTime,ColMap]", proto.NewMap[time.Time, map[string]string](new(proto.ColDateTime), proto.NewMap[string, string](new(proto.ColStr), new(proto.ColEnum)))
+		},
+		func() (string, proto.Inferable) {
+			return "ColTuple", proto.ColTuple{new(proto.ColEnum), new(proto.ColStr), proto.Named[time.Time](new(proto.ColDateTime64), "ts")}
+		},
+		func() (string, proto.Inferable) { return "ColAuto", new(proto.ColAuto) },
+	}
+	rapid.Check(t, func(rt *rapid.T) {
+		s, _ := anyTypeString(rt)
+		name, col := mk[rapid.IntRange(0, len(mk)-1).Draw(rt, "target")]()
+		err := safely(func() error { return col.Infer(proto.ColumnType(s)) })
+		if isPanic(err) {
+			rt.Fatalf("%s.Infer(%q) panicked: %v", name, s, err)
+		}
+		st.Case(stats.Hash("tinfer", name, s), true, func() any {
+			return map[string]any{"kind": "typed-infer", "target": name, "type": s, "error": fmt.Sprint(err)}
+		})
 	})
 }
